@@ -66,6 +66,9 @@ EXTRA_SIGS = [
     ("x4", None, [("v", "Vec<u32>", "arg_vec_u32")]),
     ("x5", None, [("t", "(u32, String)", "arg_tuple")]),
     ("x6", "&mut self", [("o", "Option<u32>", "arg_opt_u32"), ("f", "f64", "arg_f64")]),
+    # parameters bound by DESTRUCTURING patterns take part in the key like any other
+    ("x7", None, [("(a, b)", "(u32, u32)", "arg_pair"), ("c", "u8", "arg_u8")]),
+    ("x8", "&self", [("(s, n)", "(String, i64)", "arg_pair_si")]),
 ]
 EXTRA = [(sig, fl) for sig in EXTRA_SIGS for fl in ("global", "async")]
 # PLAIN configuration (C03: no limit / ttl / max_memory / predicates, not a Result) for every policy, sync global and
